@@ -1,4 +1,4 @@
 SPECIFICATION Spec
-CONSTANTS NG = 2 LNames = {"a"} Calls = 1 Atomic = FALSE
+CONSTANTS NG = 2 LNames = {"a"} Calls = 1 Atomic = FALSE NW = 0 Walks = 0 RegistryWalkUnlocked = FALSE
 INVARIANTS NotBad
 CHECK_DEADLOCK FALSE
